@@ -111,7 +111,8 @@ def graph_case(draw, max_tasks=8, min_tasks=1, kinds=("cmd", "exp", "group", "co
         # a combine step can fail too: a regular file planted where one of its links must go
         for i, t in enumerate(tasks):
             if t["kind"] == "combine" and draw(st.sampled_from(range(5))) == 0:
-                cands = [d[0] for d in t["deps"] if tasks[d[0]]["kind"] in PROC_KINDS]
+                # (a dependency that removes its own output directory contributes no entry: nothing to conflict with)
+                cands = [d[0] for d in t["deps"] if tasks[d[0]]["kind"] in PROC_KINDS and "rmout" not in oc.get(str(d[0]), {})]
                 if cands:
                     oc[str(i)] = {"conflict": draw(st.sampled_from(cands))}
     case["outcomes"] = oc
